@@ -140,8 +140,13 @@ func CloneBase[T factoryOf](
 		clone.factoryRef = err
 	}
 
+	clone.laterSrcErrors = base.laterSrcErrors
 	if clone.srcError == nil && srcError != nil {
 		clone.srcError = srcError
+	} else if srcError != nil {
+		// keep the original srcError; never append in place, the slice is shared with base.
+		n := len(base.laterSrcErrors)
+		clone.laterSrcErrors = append(base.laterSrcErrors[:n:n], srcError)
 	}
 
 	// If we already have a stack, don't want one, or want a source and already have it
